@@ -359,6 +359,9 @@ func (s *Session) frameObligations(fr *Frame, c *Contract, out *State, short str
 		if cur.S == init.S {
 			continue
 		}
+		if strings.HasPrefix(n, "X:visit:") {
+			continue // ghost of a map range (which keys have been produced): local to the loop
+		}
 		if strings.HasPrefix(n, "X:") {
 			ok := false
 			for _, l := range allowed[n] {
